@@ -1918,6 +1918,17 @@ class _Frame:
             self._pending_iter_path = None
             return self._run_loop("for", s, st, inner, s.body, s.orelse, target=s.target,
                                   elem_map=lambda e, elt=elt, evar=evar: subst(elt, {evar: e}))
+        rep = it
+        if rep.op == "ite" and all(x.op == "call" and x.a[0] == T("global", ("itertools.repeat",)) and x.a[1] and not x.a[2]
+                                   and x.a[1][0] == rep.a[1].a[1][0] for x in (rep.a[1], rep.a[2])):
+            rep = rep.a[1]          # `repeat(c) if n is None else repeat(c, n)`: the same element either way
+        if rep.op == "call" and rep.a[0] == T("global", ("itertools.repeat",)) and 1 <= len(rep.a[1]) <= 2 and not rep.a[2] \
+                and rep.a[1][0].op == "const":
+            # for size in itertools.repeat(64[, n]): the loop variable is the constant, n (or no) iterations
+            c_ = rep.a[1][0]
+            self._pending_iter_path = None
+            it2 = it if it is not rep or len(rep.a[1]) == 1 else T("call", (T("builtin", ("range",)), (rep.a[1][1],), ()))
+            return self._run_loop("for", s, st, it2, s.body, s.orelse, target=s.target, elem_map=lambda e, c_=c_: c_)
         self._pending_iter_path = self.path_of(s.iter, st)
         return self._run_loop("for", s, st, it, s.body, s.orelse, target=s.target)
 
@@ -2344,6 +2355,13 @@ class _Frame:
                 if isinstance(v_, tuple) and -len(v_) <= idx.a[0] < len(v_) \
                         and isinstance(v_[idx.a[0]], (int, str, bytes, float, bool, type(None))):
                     return const(v_[idx.a[0]])
+                if -len(f_[2].elts) <= idx.a[0] < len(f_[2].elts) and isinstance(f_[2].elts[idx.a[0]], (ast.Name, ast.Attribute)) \
+                        and not any(isinstance(e_, ast.Starred) for e_ in f_[2].elts):
+                    # a module-level tuple of classes / functions: the item named at that position
+                    fr_ = _Frame(self.I, f_[1], None, None, Record(), f"{f_[1].name}.<module>", self.depth + 1, self.stack)
+                    it_ = fr_.eval(f_[2].elts[idx.a[0]], State({}, {}, ()))
+                    if it_.op in ("class", "func", "enum", "const"):
+                        return it_
         if idx.op == "const" and isinstance(idx.a[0], int) and not isinstance(idx.a[0], bool) and v.op == "slice" and len(v.a) == 3 \
                 and v.a[0].op == "attr" and v.a[0].a[1] == "values" and v.a[1].op == "const" and v.a[2].op == "const":
             # record.values[1:][0] is record.values[1] (a record has exactly four words)
@@ -2630,6 +2648,12 @@ class _Frame:
                 return const(ci.member_dict()[base.a[1]])
             if name == "name":
                 return const(base.a[1])
+            if name in ci.methods and [ast.unparse(d_) for d_ in ci.methods[name].decorator_list] == ["property"] \
+                    and len(ci.methods[name].args.args) == 1:
+                # a read-only property of an enum class, computed from the member's name / value
+                r_ = self.inline_property(ci, ci.methods[name], base, st)
+                if r_ is not None:
+                    return r_
         if base.op == "global":
             # attribute of an external module / object: extend the dotted name
             if not base.a[0].startswith("pykdebugparser.") and not base.a[0].startswith("?"):
@@ -2778,6 +2802,16 @@ class _Frame:
                 tgt, val = st_.targets[0].id, st_.value
             if tgt == name and isinstance(val, ast.Constant):
                 return const(val.value)
+            if tgt == name and isinstance(val, ast.Attribute) and isinstance(val.value, ast.Name) and (
+                    (isinstance(st_, ast.AnnAssign) and "ClassVar" in ast.unparse(st_.annotation))
+                    or (isinstance(st_, ast.Assign) and not ci.is_dataclass)):
+                # kind: ClassVar[Kind] = Kind.MEMBER
+                dn_ = self.repo.dotted(ci.module, val)
+                if dn_:
+                    owner_, _, member_ = dn_.rpartition(".")
+                    f_ = self.repo.lookup(owner_)
+                    if f_ and f_[0] == "class" and f_[2].enum_kind and member_ in f_[2].member_dict():
+                        return T("enum", (f_[2].qualname, member_))
             if tgt == name and val is not None and not ci.is_dataclass:
                 # a namespace class: NAME = <constant expression over module constants>
                 v = consteval.evaluate(self.repo, ci.module, val)
@@ -2843,6 +2877,11 @@ class _Frame:
             items = base.a[0]
             if -len(items) <= idx.a[0] < len(items) and not any(i.op == "star" for i in items):
                 return items[idx.a[0]]
+        if base.op == "global" and base.a[0].startswith("pykdebugparser.") and idx.op == "const" and isinstance(idx.a[0], int) \
+                and not isinstance(idx.a[0], bool):
+            it_ = self.index_term(base, idx)
+            if it_ != T("sub", (base, idx)) and it_.op in ("class", "func", "enum", "const"):
+                return it_              # an item of an immutable module-level tuple
         if idx.op == "const" and isinstance(idx.a[0], int) and not isinstance(idx.a[0], bool) and base.op == "slice" \
                 and len(base.a) == 3 and base.a[0].op == "attr" and base.a[0].a[1] == "values" and base.a[1].op == "const" \
                 and base.a[2].op == "const":
@@ -4007,7 +4046,8 @@ class _Frame:
                 fill = args[1].a[0] if len(args) == 2 else ""
                 return T("fstr", ((("val", recv, "", const(fill + {"ljust": "<", "rjust": ">", "center": "^"}[name] + str(args[0].a[0]))),),))
             if recv.op == "const" and isinstance(recv.a[0], (str, bytes)) and all(a.op == "const" for a in args) \
-                    and name in ("lower", "upper", "strip", "format", "encode", "decode", "replace", "ljust", "rjust"):
+                    and name in ("lower", "upper", "strip", "format", "encode", "decode", "replace", "ljust", "rjust", "title",
+                                 "capitalize", "lstrip", "rstrip", "removeprefix", "removesuffix", "swapcase", "casefold"):
                 try:
                     v = getattr(recv.a[0], name)(*[a.a[0] for a in args])
                     if isinstance(v, (str, bytes)):
